@@ -16,7 +16,8 @@ for r in rows:
     if r[4]: v+=' (see note)'
     tab.append("| %s | %s | %s | %s |"%(r[0],r[1],v,r[3]))
 det=sum(1 for r in rows if r[2]=='detected')
-seeded="\n".join(tab)+"\n\n%d changes kept, %d detected by the quick check of their property.\n"%(len(rows),det)
+noted="".join("\n* `%s`: %s"%(r[0],r[4]) for r in rows if r[4])
+seeded="\n".join(tab)+"\n\n%d changes kept, %d detected by the quick check of their property.\n"%(len(rows),det)+("\nNotes:"+noted+"\n" if noted else "")
 notes=open(root+'/notes_false_alarms.md').read()
 s=open(root+'/DESIGN.md').read()
 def splice(s,tag,body):
